@@ -35,7 +35,7 @@ _p("C04", ["shexing", "c20_config"], ["schemas"],
    "representation invariant, which the constructor is proved to establish; call shapes of shex_graph / profile_graph. Totality of the composed pipeline on "
    "adversarial mixes x configurations x formats: bounded (schemas.py).")
 _p("C05", [], ["schemas"], MON)
-_p("C06", [], ["readers"], MON)
+_p("C06", ["c06_nt"], ["readers"], "wip")
 _p("C07", [], ["readers"], MON)
 _p("C08", [], ["channels"], MON)
 _p("C09", ["instances", "profiling", "shexing"], ["pipeline"],
